@@ -114,7 +114,15 @@ class ReloadSim(S.Sim):
         self.k.log = []
         self.nreq += 1
         self.apply(["req", {"command": "reloadconfig", "id": "r%d" % self.nreq, "properties": {"waiting": True}}])
-        return self.quiesce()
+        # timers fire until the request has been answered; from then on the periodic check may run again (it is refused
+        # while reloadconfig holds the exclusive slot) — one check right after the answer, then everything settles
+        n = 0
+        while self.sleepers and n < 20000 and not self.blocked and not any(l.startswith("o rep ") for l in self.k.log):
+            self.apply(["wake"])
+            n += 1
+        if not self.blocked:
+            self.apply(["check"])
+        return n + self.quiesce()
 
     def check(self):
         """one periodic check of the daemon (Arbiter.manage_watchers)"""
